@@ -21,7 +21,7 @@ Your task:
    - still compile (`cargo build --workspace --offline`),
    - still pass the existing test suite: run `cargo test --workspace --no-fail-fast --offline` in the worktree; note that exactly two tests, `types::tests::test_metric_error_cause_io_error` and `types::tests::test_metric_error_description_io_error`, fail on the ORIGINAL code as well and must be ignored; every other test must still pass,
    - NOT be exposed by ordinary use at once: it should need something specific to manifest - a particular interleaving, a fault at a particular point, a multi-step sequence of operations, an unusual input or configuration, or two cooperating sites that each look fine alone. Do not touch code guarded by `cfg(cadence_verif)` (verification hooks) and do not rely on them.
-3. Write a demonstration that FAILS with your change and PASSES on the original code: a small Rust test file placed at /tmp/wt-{pid}/cadence/tests/seeded_demo.rs (or cadence-macros/tests/seeded_demo.rs if the property is about the macros), using only the public API (and std, crossbeam-channel which is already a dependency). Verify both: run it with your change (must fail), then `git stash push -- cadence/src cadence-macros/src` the library change (keep the demo), run it again (must pass), then `git stash pop`.
+3. Write a demonstration that FAILS with your change and PASSES on the original code: a small Rust test file placed at /tmp/wt-{pid}/cadence/tests/seeded_demo.rs (or cadence-macros/tests/seeded_demo.rs if the property is about the macros), using only the public API (and std, crossbeam-channel which is already a dependency). Verify both: run it with your change (must fail); then save your library diff with `git diff -- cadence/src cadence-macros/src > seeded.patch`, revert it with `git apply -R seeded.patch` (keep the demo), run the demo again (must pass), and re-apply with `git apply seeded.patch`. Do NOT use `git stash` (the stash is shared with other worktrees of the same repository).
 4. Save the library change (only the library diff, without the demo) as /tmp/wt-{pid}/seeded.patch using `git diff -- cadence/src cadence-macros/src > seeded.patch`.
 5. Leave the worktree with the change applied and the demo present.
 
